@@ -78,6 +78,31 @@ CHECKS = {
         'technique': 'Coq proof over a byte-fed state-machine model of the MLLP reader/router + differential against a live '
                      'server',
     },
+    'C02': {
+        'text': 'Partial proof. Kernel-checked obligation over ALL rows of all 12 regenerated version tables '
+                '(Oblig/Wf_v*.v: every segment lists NAME_1..NAME_n contiguously with sane cardinalities, every field and '
+                'component row resolves to a base datatype leaf, a varies leaf or a well-formed datatype struct) plus the '
+                'position theorems of Properties/C02.v about the parser/encoder model; the implementation is swept '
+                'EXHAUSTIVELY (23k field positions, 10k component/subcomponent positions, 29k instantiations, open-ended '
+                'segments) and the model re-parses the position texts.',
+        'design_ref': 'DESIGN.md section 7 C02',
+        'note': 'Trusted: Coq kernel + vm_compute; translator gen_tables.py; correspondence harness. The general position '
+                'lemmas for arbitrary well-formed tables are being proved in Proofs/RoundTrip*.v; until they are complete the '
+                'per-row claim rests on the exhaustive implementation sweep + the kernel-checked table obligation.',
+        'technique': 'exhaustive table obligations by vm_compute + Coq model differential + exhaustive position sweep',
+    },
+    'C03': {
+        'text': 'Partial proof. For every text, table, delimiter set and level: an accepted segment line yields exactly '
+                'one Field per non-blank field repetition in text order and the non-blank leaf texts held by the tree are '
+                'exactly those of the line in the same order (C03_segment_keeps_leaves/_all_fields, unbounded, about '
+                'Model/Parser.v); admission appends children unchanged. The encoder half and the message level (segment '
+                'sequence under group finding) are decided by the model differential and by the oracle on messages with '
+                'foreign, Z and repeated segments and surplus fields, both group modes, all versions.',
+        'design_ref': 'DESIGN.md section 7 C03',
+        'note': 'Trusted: Coq kernel + vm_compute; translators; harness segcorr.py/c03.py. No axioms. Not proved: encoder '
+                'emits every held leaf; message-level order (needs Model/Message.v).',
+        'technique': 'Coq proof of leaf/field preservation of the parser model + model differential + message oracle',
+    },
 }
 
 NOT_YET = {}
